@@ -2172,7 +2172,7 @@ impl CharacterData for XmlText {
         if self.length() < offset {
             Err(error::DomException::IndexSizeErr)?
         } else {
-            Ok(self.data.borrow().substring(offset..(offset + count)))
+            Ok(self.data.borrow().substring(offset..offset.saturating_add(count)))
         }
     }
 }
@@ -2188,7 +2188,7 @@ impl CharacterDataMut for XmlText {
     }
 
     fn delete_data(&self, offset: usize, count: usize) -> error::Result<()> {
-        if self.length() < (offset + count) {
+        if self.length() < offset {
             Err(error::DomException::IndexSizeErr)?
         } else {
             self.data.borrow_mut().delete(offset, count);
@@ -2327,7 +2327,7 @@ impl CharacterData for XmlComment {
         if self.length() < offset {
             Err(error::DomException::IndexSizeErr)?
         } else {
-            Ok(self.data.borrow().substring(offset..(offset + count)))
+            Ok(self.data.borrow().substring(offset..offset.saturating_add(count)))
         }
     }
 }
@@ -2343,7 +2343,7 @@ impl CharacterDataMut for XmlComment {
     }
 
     fn delete_data(&self, offset: usize, count: usize) -> error::Result<()> {
-        if self.length() < (offset + count) {
+        if self.length() < offset {
             Err(error::DomException::IndexSizeErr)?
         } else {
             self.data.borrow_mut().delete(offset, count);
@@ -2511,7 +2511,7 @@ impl CharacterData for XmlCDataSection {
         if self.length() < offset {
             Err(error::DomException::IndexSizeErr)?
         } else {
-            Ok(self.data.borrow().substring(offset..(offset + count)))
+            Ok(self.data.borrow().substring(offset..offset.saturating_add(count)))
         }
     }
 }
@@ -2527,7 +2527,7 @@ impl CharacterDataMut for XmlCDataSection {
     }
 
     fn delete_data(&self, offset: usize, count: usize) -> error::Result<()> {
-        if self.length() < (offset + count) {
+        if self.length() < offset {
             Err(error::DomException::IndexSizeErr)?
         } else {
             self.data.borrow_mut().delete(offset, count);
